@@ -6,6 +6,10 @@ use std::net::{IpAddr, Ipv4Addr, Ipv6Addr};
 #[derive(Clone, Copy, PartialEq, Eq, Debug)]
 pub enum Link {
     Ethernet,
+    /// Ethernet II with the given destination and source MAC addresses (the analyzers try the
+    /// Ethernet reading of a frame first, so MAC bytes that look like an IP header or a NULL
+    /// family word must not matter)
+    EthernetMac([u8; 6], [u8; 6]),
     RawIp,
     /// NULL/loopback framing with the 4 family bytes given
     Null([u8; 4]),
@@ -251,6 +255,14 @@ pub fn frame(link: Link, ip_bytes: &[u8], is_v4: bool) -> Vec<u8> {
             b.extend_from_slice(ip_bytes);
             b
         }
+        Link::EthernetMac(dst, src) => {
+            let mut b = Vec::with_capacity(14 + ip_bytes.len());
+            b.extend_from_slice(&dst);
+            b.extend_from_slice(&src);
+            b.extend_from_slice(if is_v4 { &[0x08, 0x00] } else { &[0x86, 0xdd] });
+            b.extend_from_slice(ip_bytes);
+            b
+        }
         Link::RawIp => ip_bytes.to_vec(),
         Link::Null(fam) => {
             let mut b = Vec::with_capacity(4 + ip_bytes.len());
@@ -259,6 +271,24 @@ pub fn frame(link: Link, ip_bytes: &[u8], is_v4: bool) -> Vec<u8> {
             b
         }
     }
+}
+
+/// An Ethernet framing whose MAC bytes read like the start of an IPv4 / IPv6 header (version
+/// nibble 4 or 6, protocol byte 6 where a raw-IP reading would look for it) or like a NULL/loopback
+/// family word.  `pick` selects the shape, `x` fills the free bytes.
+pub fn lookalike_macs(pick: u64, x: [u8; 6]) -> Link {
+    let (dst, src): ([u8; 6], [u8; 6]) = match pick % 6 {
+        // IPv4 look: version/IHL 0x45..0x4f; a raw-IPv4 reading finds its protocol byte at src[3]
+        0 => ([0x45 + (x[0] % 11), x[1], x[2], x[3], x[4], x[5]], [x[0], x[1], x[2], 0x06, x[3], x[4]]),
+        1 => ([0x44, 0x38, 0x39, x[0], x[1], x[2]], [0x08, 0x00, 0x45, 0x06, x[3], x[4]]),
+        // IPv6 look: version nibble 6; a raw-IPv6 reading finds next-header at dst[6] = src[0]
+        2 => ([0x60 + (x[0] % 16), 0xf8, 0x1d, x[1], x[2], x[3]], [0x06, x[4], x[5], x[0], x[1], x[2]]),
+        // NULL/loopback family words (2 = AF_INET, 0x1e/0x1c/0x18 = AF_INET6 flavours), either endianness
+        3 => ([0x1e, 0x00, 0x00, 0x00, 0x60 + (x[0] % 16), x[1]], [x[2], x[3], x[4], x[5], 0x06, x[0]]),
+        4 => ([0x02, 0x00, 0x00, 0x00, 0x45, x[0]], [x[1], x[2], x[3], x[4], 0x06, x[5]]),
+        _ => ([0x00, 0x00, 0x00, 0x02, 0x45 + (x[0] % 11), x[1]], [x[2], x[3], x[4], x[5], 0x06, x[0]]),
+    };
+    Link::EthernetMac(dst, src)
 }
 
 /// Full frame from parts.
